@@ -31,7 +31,10 @@ SPEC = {
             'observer without peer id; observation = conformant filling (nothing / some / every field the observer may '
             'fill) plus one injected field class the observer is not designated for (every class of both plugins, alone and '
             'together with legitimate fields), plus malformed (duplicates, nil or non-positive values, bad fChain, broken RMN '
-            'config, unknown contract name), retry queries, empty inner maps, chain keys without configured F (execute: rejected by '
+            'config, unknown contract name), retry queries, chain KEYS with an empty inner value (Messages / TokenData / Nonces / CommitReports entries with an empty map or list, a discovery '
+            'contract name with an empty address map) alone and - class cross - together with non-empty data about the SAME non-designated chain in another map-typed field (every ordered '
+            'pair of the four execute fields): the model follows the code, an empty inner value is not an observation about the chain and the verdict is decided by the non-empty fields; '
+            'feed prices and fee-quoter update values 0 / negative / 2^200 (validation accepts any non-nil value), chain keys without configured F (execute: rejected by '
             'validateObservedChains whatever the role, so not counted as a rejection on role grounds); verdict of Plugin.ValidateObservation after a '
             'JSON round trip. non-trivial = at least one non-empty field and an observer that does not read every chain; '
             'distinct by full input. '
